@@ -6,6 +6,7 @@ import SA.Model.DnsFront
 import SA.Gen.C15DnsServer
 import SA.Props.C02
 import SA.Proofs.AcceptTimed
+import SA.Proofs.AcceptFail
 import SA.Gen.Locks
 import SA.Gen.PkgVars
 import SA.Gen.LoopVars
@@ -139,3 +140,61 @@ end SA.DnsFront
 #print axioms SA.DnsFront.C15_accepted_messages_compose
 #print axioms SA.DnsFront.C15_dns_server_keeps_default_filter
 #print axioms SA.DnsFront.C15_witness_multi_question
+
+namespace SA.Accept
+
+theorem fbase_accepts_then_handler (n p : Nat) :
+    fbase (List.replicate n (FAct.act .accept) ++ [FAct.act (.handler p)]) = List.replicate n AAct.accept ++ [AAct.handler p] := by
+  induction n with
+  | zero => rfl
+  | succ k ih => simp only [List.replicate_succ, List.cons_append, fbase, ih]
+
+/-- **served_despite_accept_failures**: when the loop goes back to Accept after every failed Accept (and runs the
+    handshake off the loop), then for every set of stalled peers and every history of arrivals, accepts, completed
+    handshakes *and failed Accept calls of any class, any number of them, at any moment*, a well-behaved peer that is
+    waiting is accepted and completes its handshake using only accept steps and its own steps. -/
+theorem C15_served_despite_accept_failures (retry : ErrClass → Bool) (hr : ∀ c, retry c = true) (stalled : Nat → Bool)
+    (hist : List FAct) (p : Nat) (hp : stalled p = false) :
+    let s := frun retry stalled finit hist
+    p ∈ s.base.pending →
+    ∃ n, p ∈ (frun retry stalled s (List.replicate n (.act .accept) ++ [.act (.handler p)])).base.finished := by
+  intro s hmem
+  have hs : s = { base := arun true stalled ainit (fbase hist), alive := true } := frun_retry retry hr stalled finit rfl hist
+  rw [hs] at hmem
+  obtain ⟨n, hn⟩ := C15_no_hol_if_off_loop stalled (fbase hist) p hp hmem
+  refine ⟨n, ?_⟩
+  rw [hs, frun_retry retry hr stalled _ rfl, fbase_accepts_then_handler]
+  exact hn
+
+/-- the code as it is goes back to Accept whatever failed: in both accept loops (SocketServer: tcp, unix, tcp+tls, DNS
+    endpoints; PacketServer: UDP/KCP endpoints) nothing in the handling of Accept's error leaves the loop or waits, and
+    `if err != nil { … }` ends with `continue` (regenerated) — the policy the theorem above is about. -/
+theorem C15_accept_errors_retried :
+    Gen.socketAcceptErrorExits = [] ∧ Gen.packetAcceptErrorExits = [] ∧
+    Gen.socketAcceptErrorEnds = "continue" ∧ Gen.packetAcceptErrorEnds = "continue" ∧
+    (codeRetry "tcp").isSome = true ∧ (codeRetry "udp").isSome = true := by decide
+
+/-- **witness_accept_failure_ends_loop**: a loop that goes back to Accept only after an accept deadline and leaves
+    after any other failure: the silent peer 0 is accepted, peer 1 arrives at a moment at which Accept fails with a
+    temporary error (out of descriptors).  The listener is open, the failure is over — and peer 1, like every peer after
+    it, waits for ever, whatever happens next. -/
+theorem C15_witness_accept_failure_ends_loop (acts : List FAct) :
+    let stalled : Nat → Bool := fun id => decide (id = 0)
+    let s0 := frun retryTimeoutOnly stalled finit [.act (.arrive 0), .act .accept, .act (.arrive 1), .fail .temporary]
+    1 ∈ (frun retryTimeoutOnly stalled s0 acts).base.pending :=
+  (frun_dead retryTimeoutOnly _ _ (by decide) 1 (by decide) acts).1
+
+/-- non-vacuity of `C15_served_despite_accept_failures`, and the other half of the witness: the same history under the
+    code's policy serves peer 1; an accept deadline does not end the witness's loop either -/
+example :
+    let stalled : Nat → Bool := fun id => decide (id = 0)
+    let hist : List FAct := [.act (.arrive 0), .act .accept, .act (.arrive 1), .fail .temporary, .fail .other, .fail .timeout]
+    1 ∈ (frun retryAll stalled finit hist).base.pending ∧
+    1 ∈ (frun retryAll stalled finit (hist ++ [.act .accept, .act (.handler 1)])).base.finished ∧
+    1 ∈ (frun retryTimeoutOnly stalled finit [.act (.arrive 0), .act .accept, .act (.arrive 1), .fail .timeout, .act .accept, .act (.handler 1)]).base.finished := by decide
+
+end SA.Accept
+
+#print axioms SA.Accept.C15_served_despite_accept_failures
+#print axioms SA.Accept.C15_accept_errors_retried
+#print axioms SA.Accept.C15_witness_accept_failure_ends_loop
